@@ -870,7 +870,41 @@ def build_rrt(ck):
 
 
 def rrt_line(j):
-    return "run %s %d %d %d %d %d %d %s %s" % (j["obj"], j["env"], j["dim"], j["seed"], j["lseed"], j["budget"], j["solves"], j["gthr"], j["thr"])
+    base = "run %s %d %d %d %d %d %d %s %s" % (j["obj"], j["env"], j["dim"], j["seed"], j["lseed"], j["budget"], j["solves"], j["gthr"], j["thr"])
+    return base + (" " + j["extra"] if j.get("extra") else "")
+
+
+# a Sidon set (all pairwise sums distinct, hence no 3-term arithmetic progression): points s/256 on a line have
+# pairwise distinct distances from any of them to two others, so nearest/nearestK never meet a distance tie,
+# while every left-to-right chain of hops sums EXACTLY (dyadic) to the same path length: cost ties everywhere
+SIDON = [1, 2, 4, 8, 13, 21, 31, 45, 66, 81, 97]
+
+
+def make_lattice_jobs(ck, rng):
+    """directed inputs with exactly cost-equal choose-parent and rewiring candidates: collinear dyadic samples
+    (horizontal, vertical or diagonal-free line in a free 2-D box, no steering, no goal bias)."""
+    jobs = []
+    for i in range(6 if ck.tier == "quick" else 40):
+        r = rng.fork("lat%d" % i)
+        pts = [s for s in SIDON]
+        if i % 3 == 2:
+            pts = [2 * s for s in SIDON[:9]]                  # another scale
+        order = pts[1:]
+        r.shuffle(order)
+        horiz = (i % 2 == 0)
+        y = r.choice([32, 64, 100, 128]) / 256.0
+
+        def P(s):
+            x = 0.125 + s / 256.0
+            return (x, y) if horiz else (y, x)
+        start = P(pts[0])
+        goal = (0.9375, 0.9375)
+        samples = [P(s) for s in order]
+        extra = "scripted %s %s %s %s %d %s" % (f2bits(10.0), f2bits(0.0), " ".join(f2bits(v) for v in start), " ".join(f2bits(v) for v in goal),
+                                                 2 * len(samples), " ".join(f2bits(v) for p in samples for v in p))
+        jobs.append({"obj": "len", "env": 0, "dim": 2, "seed": r.range(1, 10 ** 6), "lseed": r.range(1, 10 ** 6), "budget": len(samples),
+                     "solves": 1, "gthr": f2bits(0.01), "thr": "def", "extra": extra, "lattice": True})
+    return jobs
 
 
 def make_rrt_jobs(ck, rng):
@@ -998,6 +1032,8 @@ def judge_rrt(ck, hbin, jobs):
         passes = sum(1 for l in script if l == "it")
         ck.case(("rrt", rrt_line(job)), passes >= 20)
         ck.count("rrt-runs")
+        if job.get("lattice"):
+            ck.count("rrt-lattice-runs (exact cost ties)")
         ck.count("rrt-obj:" + job["obj"])
         ck.count("rrt-env:%d" % job["env"])
         ck.count("rrt-dim:%d" % job["dim"])
@@ -1143,7 +1179,7 @@ def run(ck):
     judge_runs(ck, hbin, jobs)
     ck.log("part C done (%d planner runs)" % len(jobs))
     hrrt = build_rrt(ck)
-    rjobs = make_rrt_jobs(ck, ck.rng.fork("rrt"))
+    rjobs = make_rrt_jobs(ck, ck.rng.fork("rrt")) + make_lattice_jobs(ck, ck.rng.fork("rrt-lattice"))
     judge_rrt(ck, hrrt, rjobs)
     ck.extra_cov["rrtstar_lockstep_runs"] = len(rjobs)
     ck.extra_cov["planner_runs"] = len(jobs)
@@ -1160,7 +1196,7 @@ def replay(ck, data):
         ck.lean_build([DRIVER_RRT])
         t = script[1].split()
         job = {"obj": t[1], "env": int(t[2]), "dim": int(t[3]), "seed": int(t[4]), "lseed": int(t[5]), "budget": int(t[6]), "solves": int(t[7]),
-               "gthr": t[8], "thr": t[9]}
+               "gthr": t[8], "thr": t[9], "extra": " ".join(t[10:])}
         _j, s2, impl, model, info, rc, err = exec_rrt(ck, hrrt, job)
         fails = oracle_rrt(job, s2, impl) if s2 else [("rrt-crash", "no output")]
         d = ck.first_diff(impl, model)
